@@ -216,8 +216,8 @@ pub fn chain(rng: &mut Rng, base: Tensor<i64>, m0: Arr<i64>, budget: usize, stat
                 let mut desc = Vec::new();
                 for d in 0..nd {
                     let size = shape[d] as isize;
-                    let start = rng.irange(-size, size);
-                    let end = if rng.chance(1, 3) { None } else { Some(rng.irange(-size, size)) };
+                    let start = rng.irange(-size - 2, size + 2);
+                    let end = if rng.chance(1, 3) { None } else { Some(rng.irange(-size - 2, size + 2)) };
                     let step = *rng.choose(&[1isize, 2, -1, -2, 3]);
                     desc.push(format!("{}:{:?}:{}", start, end, step));
                     items.push(SliceItem::range(start, end, step));
